@@ -355,9 +355,11 @@ fn c10_parent(args: &Args) {
 
     // E2 cross-check: the same scenarios through the shipped binary, real pipes and a stand-in prover.
     // If the code under test starts threads of its own, E1 cannot own the schedule: its findings are dropped and E2 carries the check.
-    let inapplicable = e1_stuck || reports.iter().flat_map(|r| r.violations.iter()).any(|v| v.violation.class == "E1-inapplicable");
+    // (workers that keep dying are the same situation: the engine cannot host this tree)
+    let dying = aborted.len() >= 8;
+    let inapplicable = e1_stuck || dying || reports.iter().flat_map(|r| r.violations.iter()).any(|v| v.violation.class == "E1-inapplicable");
     if inapplicable {
-        println!("NOTE: the tree under test {}; E1 results are discarded and the E2 engine decides (more cases)", if e1_stuck { "kept simulator workers busy in real time long after the wall cap (it sleeps or spins outside the simulator's control)" } else { "reaches the prover seams from threads the in-process simulator does not own (or keeps thread-local state that collides when simulated threads share one OS thread)" });
+        println!("NOTE: the tree under test {}; E1 results are discarded and the E2 engine decides (more cases)", if e1_stuck { "kept simulator workers busy in real time long after the wall cap (it sleeps or spins outside the simulator's control)" } else if dying { "made the in-process workers die again and again (it does something the in-process engine cannot host, e.g. real threads touching simulated pipes)" } else { "reaches the prover seams from threads the in-process simulator does not own (or keeps thread-local state that collides when simulated threads share one OS thread)" });
         for r in reports.iter_mut() {
             r.violations.clear();
         }
